@@ -62,6 +62,12 @@ theorem replay_store_ahead_case : Facts.c05_replay_store_ahead_case = true := by
 `recovery_progress` / `signed_vote_is_replayable` are false of the code. -/
 theorem catchup_writes_missing_marker : Facts.c05_catchup_writes_missing_marker = true := by decide
 
+/-- the marker is written only after the strict search for a damaged tail (which the model's
+crash notion never produces) and before any message would be replayed -/
+theorem catchup_marker_after_strict_pass :
+    Facts.c05_catchup_order = ["SearchForEndHeight", "IsDataCorruptionError", "WriteSync", "readReplayMessage"] := by decide
+theorem catchup_strict_pass_guard : Facts.c05_catchup_strict_guard = true := by decide
+
 /-- v0 `CheckTx` keeps the read lock across `CheckTxAsync` (deferred unlock). -/
 theorem v0_check_order : Facts.c05_v0_check_order = ["RLock", "RUnlock", "CheckTxAsync"] := by decide
 theorem v0_check_unlock_deferred : Facts.c05_v0_check_unlock_deferred = true := by decide
